@@ -20,6 +20,9 @@ EXPLANATION = (
     'length is fixed by count. C05.4: the origin fields hold the source axis at the window origin. C05.5: structured '
     'is tracecount == n_ilines*n_xlines with tracecount decoded from its slot under the version gate, and the slot '
     'is written with the matching formula.')
+EXPLANATION += (
+    ' ADDED: C05.4 resolves the origin expression per branch and through single-assignment locals. C05.5 accepts either operand order. C05.6: the sample-interval field (28:32) is decoded only under the 0.1.6 unit gate or on the 2D branch (the cropper must not re-derive times from raw header bytes), and a re-stamped copied header converts it.'
+)
 ASSUMPTIONS = ['names denote what they say (axis tags from identifiers)', 'segyio reports the source axes correctly']
 NOT_DECIDED = 'Float rounding of start + i*interval itself; what segyio reports for the source; values of the axes.'
 
